@@ -525,7 +525,7 @@ Definition req_of (m : msg) (me t : bytes) (v : bool) : h1_request :=
   let all := model_headers m in
   let headers := filter (fun h => negb (is_cookie_or_referer h)) all in
   {| r_method := me; r_uri := t; r_version := version_of v; r_headers := headers;
-     r_cookies := match last_value (bs "cookie") all with Some c => parse_cookies c | None => [] end;
+     r_cookies := match joined_value (bs "cookie") all with Some c => parse_cookies c | None => [] end;
      r_referer := last_value (bs "referer") all;
      r_user_agent := first_value (bs "user-agent") headers;
      r_accept_language := first_value (bs "accept-language") headers |}.
